@@ -598,7 +598,7 @@ def native_replay(ctx, ob, inputs, tag, extra_defs=None, sanitizer=None):
     defs.update(extra_defs or {})
     rec = {"property": ctx.prop, "obligation": ob.name, "harness": ob.harness, "entry": ob.entry, "sanitizer": sanitizer or "address",
            "defs": defs, "libs": ob.libs, "libdefs": list(ob.libdefs), "inputs": [str(x) for x in (inputs or [])],
-           "native_libs": ob.native_libs, "extra_src_note": [os.path.basename(x) for x in ob.extra_src], "inc": ob.inc}
+           "native_libs": ob.native_libs, "flags": list(ob.flags), "extra_src_note": [os.path.basename(x) for x in ob.extra_src], "inc": ob.inc}
     with open(rpath, "w") as f:
         json.dump(rec, f, indent=1)
     ok, text = replay_record(ctx, rec, d, extra_src=ob.extra_src)
@@ -691,7 +691,8 @@ def replay_record(ctx, rec, d, extra_src=()):
         for x in rec["inputs"]:
             f.write("%s\n" % x)
     env = dict(os.environ)
-    env["ASAN_OPTIONS"] = "detect_leaks=0:abort_on_error=0:halt_on_error=1"
+    leaks = "--memory-leak-check" in rec.get("flags", [])
+    env["ASAN_OPTIONS"] = "detect_leaks=%d:abort_on_error=0:halt_on_error=1" % (1 if leaks else 0)
     env["TSAN_OPTIONS"] = "halt_on_error=1:report_signal_unsafe=0"
     rc, o, e, w, to = run([exe, inp], timeout=120, mem_gb=None, env=env)
     text = (o + e)[-4000:]
@@ -704,7 +705,7 @@ def replay_record(ctx, rec, d, extra_src=()):
         return True, "native run did not terminate within 60 s (runaway loop)\n" + text
     if "VF_ASSUME_FAILED" in text:
         return None, "replay inputs violate a harness assumption (encoding mismatch)\n" + text
-    if rc != 0 or "VF_ASSERT_FAILED" in text or "AddressSanitizer" in text or "ThreadSanitizer: data race" in text:
+    if rc != 0 or "VF_ASSERT_FAILED" in text or "AddressSanitizer" in text or "ThreadSanitizer: data race" in text or "LeakSanitizer" in text:
         return True, text
     return False, text
 
